@@ -223,3 +223,66 @@ def serde_struct_keys(prog, self_name):
                     keys.append(k.decode('utf8', 'replace') if k is not None else None)
             return keys
     return None
+
+
+def synthetic_reader(E, sid=('s', 'synthetic')):
+    """abstract deku Reader positioned at bit 0 of an unknown stream"""
+    from absint import const_int
+    return ('A', (('O', 'stream', (sid, const_int(0), None)), ('T', None, None), const_int(0), const_int(0)))
+
+
+_bitscache = {}
+
+
+def variant_field_bits(prog, enum_name, skip=()):
+    """{variant index: {field path: (bit position, width)}} for every integer leaf of the value
+    built by the derived deku reader of `enum_name`, read from offset 0 of a synthetic stream"""
+    key = (id(prog), enum_name, tuple(skip))
+    if key in _bitscache:
+        return _bitscache[key]
+    body = next((b for b in prog.bodies.values() if b['kind'] == 'fn' and b['item'] == 'from_reader_with_ctx'
+                 and b.get('impl') and b['impl'].get('self') == enum_name), None)
+    if body is None:
+        return {}
+    E = runner.make_engine(prog, K=64)
+    E.skip_bodies = set(skip)
+    cell = ('o', ('p', 'reader'))
+    out = {}
+
+    def leaves(E_, st, v, path, acc, depth=0):
+        v = E_.expand(v) if v[0] == 'T' else v
+        if v[0] == 'I':
+            r = st.resolve(v)
+            t = v[4]
+            if t is not None and t[0] == 'bits':
+                acc[path] = (t[2], t[3])
+            elif t is not None and t[0] == 'Shr' and t[1][0] == 'bits':
+                acc[path] = (t[1][2], t[1][3] - t[2][1])
+        elif v[0] == 'A' and depth < 6:
+            for i, x in enumerate(v[1]):
+                leaves(E_, st, x, path + (i,), acc, depth + 1)
+        elif v[0] == 'E' and depth < 6 and len(v[2]) == 1:
+            vi, fs = v[2][0]
+            for i, x in enumerate(fs):
+                leaves(E_, st, x, path + (('v', vi), i), acc, depth + 1)
+
+    def hook(E_, st, frame, b, idx, stmt, v):
+        if frame.depth != 0 or stmt['rv']['k'] != 'agg' or stmt['rv']['ak']['k'] != 'adt':
+            return
+        ty = prog.types[stmt['rv']['ak']['ty']]
+        if ty['name'] != enum_name:
+            return
+        acc = out.setdefault(stmt['rv']['ak']['variant'], {})
+        for i, o in enumerate(stmt['rv']['ops']):
+            leaves(E_, st, E_.operand(st, frame, o), (i,), acc)
+    E.stmt_hook = hook
+
+    def pre(E_, st, fr):
+        st.cells[cell] = synthetic_reader(E_)
+    args = [('R', cell, (), True)] + [None] * (body['argc'] - 1)
+    try:
+        runner.run_entry(E, body, args, pre=pre, quiet=True)
+    except A.AnalysisError:
+        pass
+    _bitscache[key] = out
+    return out
